@@ -26,7 +26,10 @@ RULE = ('A case is an interpreted op list over {finalize; unlock_config block wi
         'Gin call propagating, break}; bind_parameter (str/tuple key, 2 spellings, scoped); '
         'parse_config (flat, block, two statements, macro definition, %macro reference top-level '
         'or nested, unevaluated @M/gin.macro, @unknown() placeholder via skip_unknown=True '
-        'top-level or nested, %gin.REQUIRED); register a new configurable (configurable / '
+        'top-level or nested, %gin.REQUIRED, a constant other than gin.REQUIRED, a reference to a '
+        'known configurable, and a two-parameter section with one parameter left at '
+        '%gin.REQUIRED and the other bound to constant/literal/reference/macro in either order); '
+        'register a new configurable (configurable / '
         'register / external_configurable; a new name, or -- inside interactive mode only -- an '
         'existing name with a different function); an interactive_mode() block with a nested op '
         'list as body; finalize optionally called inside an active config_scope; clear_config; '
@@ -34,10 +37,13 @@ RULE = ('A case is an interpreted op list over {finalize; unlock_config block wi
         'None, returns {}, returns a binding, returns the parameter of an earlier hook under a '
         'different spelling, returns an invalid binding, raises}}. Operands are small ints taken '
         'modulo the model state. Source 1: bounded exhaustive sweep of all sequences of length '
-        '<=3 (quick) / <=4 (thorough) over a fixed 23-op alphabet, plus a ~1500-case product sweep '
+        '<=3 (quick) / <=4 (thorough) over a fixed 23-op alphabet, plus a ~1900-case product sweep '
         'of the variants the alphabet has one representative of (5 exit paths x 8 bodies x '
         'locked/unlocked x 5 follow-ups; 6 bad-value kinds x 2 macros x macro bound/unbound x '
-        'binding hook or not x 4 repairs x finalize inside a config scope or not; all pairs of 15 '
+        'binding hook or not x 4 repairs x finalize inside a config scope or not; 384 two-parameter '
+        'sections (REQUIRED x other value kind x both binding orders x both name orders x made by '
+        'one flat/block parse or two operations x scoped section or not x scoped finalize or '
+        'not); all pairs of 15 '
         'hook variants; 51 mutator forms on a locked config; the same forms plus 9 '
         're-registrations inside interactive mode, locked / in an unlock block / after clear). '
         'Source 2: Hypothesis histories: free op lists (<=14 top-level ops, '
@@ -109,6 +115,7 @@ FLOORS = {
     'hyp:locked:register-rejected': (0.05, 'gen:hyp'),
     'hyp:locked:register-interactive-rejected': (0.01, 'gen:hyp'),
     'hyp:finalize:inside-config-scope': (0.05, 'gen:hyp'),
+    'hyp:finalize:required-after-other-constant-in-section': (0.01, 'gen:hyp'),
 }
 TECHNIQUE = ('model-based property testing: operation histories (bounded exhaustive sweep + '
              'Hypothesis) against a lock-bit/config/hook reference model, one forked process per '
@@ -170,6 +177,13 @@ RAISING = (EXIT_RAISE, EXIT_BASE, EXIT_GINCALL)
 
 PARSE_KINDS = ['flat', 'block', 'two', 'macrodef', 'macroref', 'macroref_nested', 'uneval',
                'unknown', 'unknown_nested', 'required']
+# 'pair': two statements for ONE (scope, configurable) section -- one parameter left at
+# %gin.REQUIRED, the other bound to a constant / literal / reference / macro, in either order.
+GOOD_PARSE_KINDS = ['flat', 'block', 'two', 'macrodef', 'constref', 'ref']
+BAD_PARSE_KINDS = PARSE_KINDS[4:] + ['pair', 'pair']
+ALL_PARSE_KINDS = PARSE_KINDS + ['constref', 'ref', 'pair']
+PAIR_OTHER = ['const', 'lit', 'ref', 'macro']
+CONSTANT = 'c12k.KC'
 HOOK_KINDS = ['none', 'empty', 'bind', 'dup', 'invalid', 'raise']
 MUTATORS = ('bind', 'parse', 'register')
 
@@ -192,7 +206,9 @@ class _Run:
     self.mod = mod
     gin.configurable('f', module='pm')(mod.f)
     gin.configurable('g', module='pm')(mod.g)
+    gin.constant(CONSTANT, 7)      # a constant other than gin.REQUIRED
     # ---- model ----
+    self.constants = True           # False after clear_config(clear_constants=True)
     self.locked = False
     self.finalized = False  # a finalize succeeded and no clear_config happened since
     self.config = {}       # (scope, full selector) -> {param: ('lit', n) | ('mref', M) | (kind,)}
@@ -373,6 +389,30 @@ class _Run:
       text, upd, skip = f'{lhs} = [{val}, @zz.nosuch]', [(key, param, ('unk',))], True
     elif kind == 'required':
       text, upd = f'{lhs} = %gin.REQUIRED', [(key, param, ('req',))]
+    elif kind in ('constref', 'ref', 'pair'):
+      other_kind = {'constref': 'const', 'ref': 'ref'}.get(kind) or PAIR_OTHER[(val // 2) % 4]
+      if other_kind == 'const' and not self.constants:
+        other_kind = 'lit'          # the constant is gone: %KC would now name a macro
+      if other_kind == 'const':
+        rhs, value = '%' + [CONSTANT, CONSTANT.split('.')[1]][sp // 2 % 2], ('const',)
+      elif other_kind == 'ref':
+        rhs, value = ['@pm.g()', '@f'][val % 2], ('ref',)
+      elif other_kind == 'macro':
+        rhs, value = '%' + macro, ('mref', macro)
+      else:
+        rhs, value = str(val), ('lit', val)
+      if kind != 'pair':
+        text, upd = f'{lhs} = {rhs}', [(key, param, value)]
+      else:
+        other = PARAMS[(PARAMS.index(param) + 1) % 2]
+        stmts = [(param, '%gin.REQUIRED', ('req',)), (other, rhs, value)]
+        if val % 2:
+          stmts.reverse()           # the other parameter is bound first
+        if sp // 2 % 2:
+          text = f'{ssel}:\n' + ''.join(f'  {p} = {r}\n' for p, r, _ in stmts)
+        else:
+          text = '\n'.join(f'{ssel}.{p} = {r}' for p, r, _ in stmts)
+        upd = [(key, p, v) for p, _, v in stmts]
     else:
       raise OutOfDomain(f'unknown parse kind {kind!r}')
     return text, skip, upd
@@ -474,6 +514,8 @@ class _Run:
     if self.locked_entry_depth:
       self.labels.add('clear:inside-unlock-block')
     gin.clear_config(clear_constants=bool(op[1]))
+    if op[1]:
+      self.constants = False
     self.config = {}
     self.locked = False
     self.finalized = False
@@ -586,6 +628,15 @@ class _Run:
         self.labels.add('finalize:rejected:' + c.replace(':', '-'))
       if len(set(causes)) == 1:
         self.labels.add('finalize:sole-cause:' + causes[0].replace(':', '-'))
+      if set(causes) == {'config:required'}:
+        # every REQUIRED parameter comes after a parameter bound to another constant in the
+        # binding order of its own section (a scan that stops at the constant misses them all)
+        hidden = []
+        for params in self.config.values():
+          kinds = [v[0] for v in params.values()]
+          hidden += ['const' in kinds[:i] for i, k in enumerate(kinds) if k == 'req']
+        if all(hidden):
+          self.labels.add('finalize:required-after-other-constant-in-section')
       if binders:
         self.labels.add('finalize:rejected:with-valid-hook-binding')
       return
@@ -752,6 +803,29 @@ def sweep_variants(tier):
             for scoped in (0, 1):     # finalize called inside `with gin.config_scope('zs'):`
               add(macros + hook + [bad, ['finalize', scoped]] + fix +
                   [['finalize', scoped], _BIND1])
+  # (2b) sections with two parameters: one left at %gin.REQUIRED, the other bound to another
+  #      constant / a literal / a reference / a macro (bound), in both binding orders and both
+  #      parameter-name orders, made by one parse (flat, block) or by two separate operations,
+  #      unscoped and scoped sections, finalize inside a config scope or not; then repaired
+  for si in (0, 1):
+    for ci in (0, 1):
+      for pi in (0, 1):                       # which parameter is left REQUIRED
+        for oi, okind in enumerate(PAIR_OTHER):
+          for first in (0, 1):                # 1: the other parameter is bound first
+            val = 2 * oi + first
+            pre = [['parse', 'macrodef', 0, 0, 0, 0, val]] if okind == 'macro' else []
+            req = ['parse', 'required', si, ci, pi, 0, 0]
+            single = {'const': ['parse', 'constref', si, ci, pi + 1, 2, val],
+                      'lit': ['bind', si, ci, pi + 1, 1, val],
+                      'ref': ['parse', 'ref', si, ci, pi + 1, 1, val],
+                      'macro': ['parse', 'macroref', si, ci, pi + 1, 0, val]}[okind]
+            makers = [[['parse', 'pair', si, ci, pi, 0, val]],
+                      [['parse', 'pair', si, ci, pi, 3, val]],
+                      [single, req] if first else [req, single]]
+            for mk in makers:
+              for scoped in (0, 1):
+                add(pre + mk + [['finalize', scoped], ['bind', si, ci, pi, 0, 5],
+                                ['finalize', scoped], _BIND1])
   # (3) hook kinds: every pair of hooks (kind x spelling) then finalize, then a second finalize
   hooks = [['hook', k, 1, 0, 0, sp, v] for k in ('bind', 'dup') for sp in range(4)
            for v in (1,)]
@@ -764,7 +838,7 @@ def sweep_variants(tier):
   # (4) every mutator form on a locked config
   muts = [['bind', si, ci, pi, sp, 3] for si in (0, 1) for ci in (0, 1) for pi in (0, 1)
           for sp in range(4)]
-  muts += [['parse', k, 1, 1, 1, sp, 1] for k in PARSE_KINDS for sp in (0, 1)]
+  muts += [['parse', k, 1, 1, 1, sp, 1] for k in ALL_PARSE_KINDS for sp in (0, 1)]
   muts += [['register', api] for api in range(3)]
   for m in muts:
     add([_BIND1, ['finalize'], m, ['unlock', [m], EXIT_NORMAL], m])
@@ -790,9 +864,8 @@ _val = st.integers(0, 9)
 
 def _leaf_ops():
   bind = st.tuples(st.just('bind'), _i, _i, _i, _i, _val)
-  good_parse = st.tuples(st.just('parse'), st.sampled_from(['flat', 'block', 'two', 'macrodef']),
-                         _i, _i, _i, _i, _val)
-  bad_parse = st.tuples(st.just('parse'), st.sampled_from(PARSE_KINDS[4:]), _i, _i, _i, _i, _val)
+  good_parse = st.tuples(st.just('parse'), st.sampled_from(GOOD_PARSE_KINDS), _i, _i, _i, _i, _val)
+  bad_parse = st.tuples(st.just('parse'), st.sampled_from(BAD_PARSE_KINDS), _i, _i, _i, _i, _val)
   good_hook = st.tuples(st.just('hook'), st.sampled_from(['none', 'empty', 'bind', 'bind']),
                         _i, _i, _i, _i, _val)
   bad_hook = st.tuples(st.just('hook'), st.sampled_from(['dup', 'dup', 'invalid', 'raise']),
@@ -839,8 +912,7 @@ def _benign():
   """Ops that keep a later finalize acceptable (used to reach the locked state often)."""
   return _weighted([
       (3, st.tuples(st.just('bind'), _i, _i, _i, _i, _val)),
-      (2, st.tuples(st.just('parse'), st.sampled_from(['flat', 'block', 'two', 'macrodef']),
-                    _i, _i, _i, _i, _val)),
+      (2, st.tuples(st.just('parse'), st.sampled_from(GOOD_PARSE_KINDS), _i, _i, _i, _i, _val)),
       (1, st.tuples(st.just('register'), st.integers(0, 2))),
       (2, st.tuples(st.just('hook'), st.sampled_from(['none', 'empty', 'bind']),
                     _i, _i, _i, _i, _val)),
@@ -875,15 +947,27 @@ def _reject_scenario(draw):
     ops.append(['hook', 'bind', draw(_i), draw(_i), draw(_i), draw(_i), draw(_val)])
   if draw(st.booleans()):
     ops.append(['parse', 'macrodef', 0, 0, 0, 0, draw(_val)])
-  bad = st.one_of(
-      st.tuples(st.just('parse'), st.sampled_from(PARSE_KINDS[4:]), _i, _i, _i, _i, _val),
-      st.tuples(st.just('hook'), st.sampled_from(['dup', 'dup', 'invalid', 'raise']),
-                _i, _i, _i, _i, _val)).map(lambda o: [list(o)])
-  # a macro that is bound but referenced without evaluation (the only cause that needs two ops)
-  uneval_bound = st.tuples(_i, _i, _i, _i, _val).map(
-      lambda t: [['parse', 'macrodef', 0, 0, 0, 0, t[4]], ['parse', 'uneval'] + list(t)])
-  for group in draw(st.lists(st.one_of(bad, bad, bad, uneval_bound), min_size=1, max_size=2)):
-    ops += group
+  # 1-2 rejection causes, every cause class equally likely (sampled_from keeps repetitions as
+  # weights; one_of silently drops duplicate branches)
+  causes = ['macroref', 'macroref_nested', 'uneval', 'uneval_bound', 'unknown', 'unknown_nested',
+            'required', 'pair', 'hidden_required', 'hidden_required', 'dup', 'invalid', 'raise']
+  for _ in range(draw(st.sampled_from([1, 1, 2]))):
+    cause = draw(st.sampled_from(causes))
+    t = [draw(_i), draw(_i), draw(_i), draw(_i), draw(_val)]
+    if cause in ('dup', 'invalid', 'raise'):
+      ops.append(['hook', cause] + t)
+    elif cause == 'uneval_bound':
+      # a macro that is bound but referenced without evaluation (needs two ops)
+      ops += [['parse', 'macrodef', 0, 0, 0, 0, t[4]], ['parse', 'uneval'] + t]
+    elif cause == 'hidden_required':
+      # a parameter bound to another constant precedes one left at %gin.REQUIRED in its section
+      if draw(st.booleans()):
+        ops.append(['parse', 'pair'] + t[:4] + [1])
+      else:
+        ops += [['parse', 'constref', t[0], t[1], t[2] + 1, t[3], 0],
+                ['parse', 'required', t[0], t[1], t[2], t[3], 0]]
+    else:
+      ops.append(['parse', cause] + t)
   ops.append(['finalize'])
   ops += draw(st.lists(_ops(0), max_size=5))
   return ops
